@@ -49,7 +49,7 @@ theorem applyDeferralsFs_grows {uidOf gidOf : Str → Option Nat} {D : Path} {S 
     obtain ⟨hv, hp, hcl⟩ := hd d List.mem_cons_self
     obtain ⟨hctx, hfull⟩ := ctx_of_inv hI hv hcl
     have L := applyDeferralFs_local (uidOf := uidOf) (gidOf := gidOf) (n := d.node) hctx
-      (hfull _ (List.prefix_refl _))
+      (FinalNotLink.of_noneOrDir (hfull _ (List.prefix_refl _)))
     have hj : d.path = D ++ comps d.node ++ (if d.node.apath = [slash] then [[]] else []) := by
       rw [hp, joinDest_valid D hv]; rfl
     rw [← hj] at L
